@@ -3,7 +3,7 @@
    N / Z / positive stay Coq datatypes; no Extract Constant. *)
 From Coq Require Extraction.
 From Coq Require Import ExtrOcamlBasic.
-From CandidV Require Import Consts model.Base model.Hash model.Leb model.Principal model.Ty model.Gfp model.Sub model.Val model.Wire model.Coerce model.Annot model.Text model.Check model.Actions.
+From CandidV Require Import Consts model.Base model.Hash model.Leb model.Principal model.Ty model.Gfp model.Sub model.Val model.Wire model.Coerce model.De model.Annot model.Text model.Check model.Actions.
 Extraction Language OCaml.
 Set Extraction Optimize.
 Extraction "model.ml"
@@ -17,6 +17,7 @@ Extraction "model.ml"
   Principal.to_text Principal.from_text Principal.try_from_slice Principal.crc32 Principal.b32_encode Principal.b32_decode
   Ty.ty_eqb Ty.trace Ty.tuple Sub.sub_dec Sub.sub_dec_fast Sub.eq_dec
   Val.has_type Wire.enc_val Wire.dec_val Wire.dec_header Wire.table_name Coerce.coerce Coerce.spec_decode Coerce.spec_decode_untyped Coerce.spec_decode_untyped_raw Coerce.decode_fuel
+  De.de_message De.de_message_untyped De.de
   Annot.annotate_top Annot.annotate_args Annot.vsize
   Text.pp_text Text.ident_string Text.pp_blob Text.lex_string Text.pp_num_str Text.strip_underscores Text.utf8 Text.is_scalar Val.utf8_valid
   Check.check_prog Actions.record_ids.
